@@ -89,10 +89,10 @@ def ledger(rnd, n, world="W1", sid="L"):
                     q = rnd.random()
                     if q < 0.08:
                         t["nonce"] = rnd.choice(["stale", "future"])
-                    if q > 0.9:
+                    if q > 0.9 or rnd.random() < 0.06:
                         t["payload"] = rnd.choice([1, 10, 1000, 1024])
-                    if 0.5 < q < 0.56:
-                        t["gasPrice"] = rnd.choice([2, 7, 4294967295])
+                    if 0.5 < q < 0.56 or rnd.random() < 0.08:     # drawn independently: a payload together with a gas price above one
+                        t["gasPrice"] = rnd.choice([2, 3, 7, 4294967295])
                     if 0.3 < q < 0.33:
                         t["chain"] = 1
                     if 0.4 < q < 0.43 and not t.get("multi"):
